@@ -54,7 +54,7 @@ fn sharded(property: &str, engine: &str, flavour: &str, tier: &str, params: Valu
 
 fn seq_bounds(tier: &str) -> Vec<(usize, usize, usize)> {
     if tier == "quick" {
-        vec![(2, 4, 2), (3, 3, 2)]
+        vec![(2, 4, 2), (3, 3, 2), (3, 4, 2)]
     } else {
         vec![(2, 5, 2), (3, 4, 2), (3, 5, 1), (4, 3, 1), (4, 4, 1)]
     }
